@@ -605,3 +605,21 @@ def lkcd_requests(rng, info):
     reqs.insert(pos, "G")
     reqs.insert(rng.randrange(len(reqs) + 1), "Z1")
     return reqs
+
+
+# ---------------------------------------------------------------------------
+# s390 stand-alone dump
+# ---------------------------------------------------------------------------
+
+def gen_s390(rng, big=False):
+    shift = rng.choice([12, 12, 12, 13, 16])
+    pgsz = 1 << shift
+    n = rng.randint(0, 8 if shift <= 13 else 3)
+    entries = [(0, b"", page_content(rng, pgsz)) for _ in range(n)]
+    tod = rng.getrandbits(60)
+    lay = {"pgsz": hx(pgsz), "a64": rng.randint(0, 1), "hdrsz": hx(rng.choice([4096, 4096, 8192, 4096 + 512])),
+           "tod": hx(tod), "endtod": hx(tod + rng.choice([0, 1, 1 << 40])), "ver": hx(rng.choice([1, 5])),
+           "cpuid": hx(rng.getrandbits(64))}
+    info = {"pgsz": pgsz, "maxpfn": n, "pfns": list(range(n)),
+            "key": "s390 a%d pg%d n%d" % (64 if lay["a64"] else 32, shift, n)}
+    return lay, entries, info
